@@ -24,7 +24,12 @@ def get_gx() -> GXM.GX:
     global _GX
     if _GX is None:
         from spec.grammar import make_grammar
+        import os as _os
 
+        # (unrolling repetitions 0..3 in the thorough tier was tried: C04 alone then needs ~45 min on a busy machine; the
+        # long-repetition native runs and the SMT proof of the operator chain cover the third and fourth iteration instead)
+        if _os.environ.get("VERIF_MAXREP"):
+            GXM.Grammar.MAXREP = int(_os.environ["VERIF_MAXREP"])
         _GX = GXM.GX(make_grammar)
     return _GX
 
@@ -249,7 +254,15 @@ def run_case(item, _retry=False) -> dict:
                             rec["cost"].append((cd, text, list(fol)))
                         sd = scope_diff(gx, method, oc, list(fol))
                         if sd:
-                            rec["scope"].append((sd, text, list(fol)))
+                            rd = None
+                            if sum(1 for x in rec["scope"] if len(x) > 3 and x[3]) < 2:
+                                try:
+                                    rd = GR.replay_data(gx, idx, pidx, depth, oc.run)
+                                    if rd is not None:
+                                        rd["family"] = "scope"
+                                except Exception:
+                                    rd = None
+                            rec["scope"].append((sd, text, list(fol), rd))
                     else:
                         rec["fails"].append((oc.kind, oc.detail, text, list(fol), witness_text(gx, oc.run)))
         if rec["ok"] == 0 and not rec["fails"] and not _retry:
@@ -286,22 +299,23 @@ def expected_registrations(gx, method, oc, follow):
             elif isinstance(d, A.Decl) and d.name:
                 out.append((d.name, False))
             elif isinstance(d, A.FuncDef) and d.decl.name:
+                # C99 6.9.1p5/p9: the parameters of the function being defined are those of the declarator part nearest the name
+                # (the outermost node of pycparser's declarator chain); they are ordinary identifiers of the body's scope, entered
+                # before the body is read.  The function's own name follows (pycparser builds the declaration after the body).
+                ft = d.decl.type
+                if isinstance(ft, A.FuncDecl) and ft.args is not None:
+                    for prm in ft.args.params:
+                        if isinstance(prm, A.EllipsisParam):
+                            break
+                        nm = getattr(prm, "name", None)
+                        if nm:
+                            out.append((nm, False))
                 out.append((d.decl.name, False))
         return out
     if method == "_parse_enumerator":
         return [(res.name, False)]
-    if method == "_parse_function_decl":
-        # parameters of a function DEFINITION (declarator followed by '{') become ordinary identifiers of the body
-        if follow and follow[0] == "LBRACE" and res.args is not None:
-            out = []
-            for prm in res.args.params:
-                if isinstance(prm, A.EllipsisParam):
-                    break
-                nm = getattr(prm, "name", None)
-                if nm:
-                    out.append((nm, False))
-            return out
-        return []
+    # a function declarator alone registers nothing: whether its parameters are those of a function being defined is known only
+    # to the definition (`int (*f(int a))(int b) {`: a, not b) -- see DECLARING above
     return []
 
 
